@@ -318,6 +318,7 @@ Section Full.
     intros Hh Hb Hdv. unfold reader_inspect. rewrite Hdv. unfold payload_hb at 1.
     rewrite (read_header_hb hok hdrdec pragma_ok hb roots 1)
       by (try apply Hh; eapply (hdr_ok_63 hok hdrdec pragma_ok); exact Hh).
+    change (1 =? 1) with true. cbn [negb]. rewrite andb_false_r.
     rewrite <- blen_ld.
     rewrite (inspect_loop_sections_quick bs (payload_hb hb bs) (ld hb) [] _ eq_refl Hb (length_payload_ge hok hdrdec pragma_ok hb bs)).
     rewrite app_nil_r, rev_involutive. reflexivity.
